@@ -56,8 +56,9 @@ theorem mk3_eta {α : Type} (f : Ax → α) : mk3 (f 0) (f 1) (f 2) = f := by
 
 /-! ## geometry_equal -/
 
-/-- one affine entry within tolerance, `np.allclose` style: `|a - b| ≤ atol + rtol |b|` -/
-def EntryWithin (atol a b : Rat) : Prop := rabs (a - b) ≤ atol + rtolDefault * rabs b
+/-- one affine entry within tolerance, `np.allclose` / `np.isclose` style: `|a - b| ≤ atol + rtol |b|`, or identical
+(the second disjunct follows from the first whenever `atol ≥ 0`) -/
+def EntryWithin (atol a b : Rat) : Prop := rabs (a - b) ≤ atol + rtolDefault * rabs b ∨ a = b
 
 def VecWithin (atol : Rat) (a b : V3) : Prop :=
   EntryWithin atol a.x b.x ∧ EntryWithin atol a.y b.y ∧ EntryWithin atol a.z b.z
@@ -1213,14 +1214,7 @@ theorem matchApply_reach {α : Type} (nv : Vol α) (c : PadMode α) (first st si
 
 
 
-theorem entryWithin_self (t : Rat) (ht : 0 ≤ t) (a : Rat) : EntryWithin t a a := by
-  unfold EntryWithin
-  have h1 : rabs (a - a) = 0 := by rw [sub_self]; exact rabs_zero
-  have h2 := rabs_nonneg a
-  have h3 : (0 : Rat) ≤ rtolDefault := by unfold rtolDefault; norm_num
-  rw [h1]
-  have := mul_nonneg h3 h2
-  linarith
+theorem entryWithin_self (t : Rat) (_ht : 0 ≤ t) (a : Rat) : EntryWithin t a a := Or.inr rfl
 
 theorem vecWithin_self (t : Rat) (ht : 0 ≤ t) (a : V3) : VecWithin t a a :=
   ⟨entryWithin_self t ht _, entryWithin_self t ht _, entryWithin_self t ht _⟩
